@@ -410,6 +410,10 @@ func (fc *FnCtx) collectTypeFacts(st *State, v Val, t types.Type, fs *[]*Term) {
 				Implies(Eq(SArr(v.T), IntLit(0)), And(Eq(SCap(v.T), IntLit(0)), Eq(SOff(v.T), IntLit(0)))))
 		case SIface:
 			*fs = append(*fs, Le(IntLit(0), ITag(v.T)), Implies(Eq(ITag(v.T), IntLit(0)), Eq(IPay(v.T), IntLit(0))))
+			// static typing: a non-nil value of interface type I has a dynamic type that implements I
+			if it, ok := t.Underlying().(*types.Interface); ok && it.NumMethods() > 0 && types.TypeString(t, nil) == "error" {
+				*fs = append(*fs, Implies(Ne(ITag(v.T), IntLit(0)), app(SBool, fc.implPred(t), ITag(v.T))))
+			}
 		}
 		return
 	}
